@@ -21,7 +21,8 @@
      inFD inPeer      transport dials in progress: FD-consuming ones / all (one peer)
      fdC actP         limiter.fdConsuming, limiter.activePerPeer[p]
      nAD              len(dsync.dials)
-     left             goroutines beyond those of the idle swarm and of open connections
+     left             when no caller is inside: goroutines whose stack is in the dial worker loop,
+                      a limiter job, activeDial.dial, dialPeer or a transport dial (else 0)
      waiting          callers still inside DialPeer *)
 From Coq Require Import List ZArith Bool.
 From Verif Require Import lib.Wire c05.ModelLimiter c05.SpecLimiter c05.SpecWorker.
